@@ -105,15 +105,23 @@ func VerifC13Mouse() {
 		EventType: []vaxis.EventType{vaxis.EventPress, vaxis.EventRelease, vaxis.EventMotion}[zzverif.Choose("type", 3)],
 	}
 	zzverif.Assume(msg.Col < zzverif.Param("maxpos") && msg.Row < zzverif.Param("maxpos"))
-	anyMouse := vt.mode.mouseButtons || vt.mode.mouseDrag || vt.mode.mouseMotion || vt.mode.mouseSGR
+	// the tracking modes enable reports; 1006 only selects their encoding
+	tracking := vt.mode.mouseButtons || vt.mode.mouseDrag || vt.mode.mouseMotion
+	motion := msg.EventType == vaxis.EventMotion
+	expect := tracking && !motion ||
+		motion && msg.Button != vaxis.MouseNoButton && (vt.mode.mouseDrag || vt.mode.mouseMotion) ||
+		motion && msg.Button == vaxis.MouseNoButton && vt.mode.mouseMotion
 	vt.Update(msg)
 	out := string(zzverif.FileLog(vt.pty))
-	if !anyMouse {
-		wheel := msg.Button == vaxis.MouseWheelUp || msg.Button == vaxis.MouseWheelDown
-		if !(vt.mode.altScroll && vt.mode.smcup && wheel) {
-			zzverif.Assert(out == "", "nothing-written-without-a-mouse-mode")
-		}
-	} else if vt.mode.mouseSGR && out != "" {
+	wheel := msg.Button == vaxis.MouseWheelUp || msg.Button == vaxis.MouseWheelDown
+	altScrollKeys := !tracking && vt.mode.altScroll && vt.mode.smcup && wheel
+	if !expect && !altScrollKeys {
+		zzverif.Assert(out == "", "nothing-written-for-events-the-child-has-not-enabled")
+	}
+	if expect {
+		zzverif.Assert(out != "", "enabled-event-is-reported")
+	}
+	if expect && vt.mode.mouseSGR && out != "" {
 		zzverif.Reach("sgr-report")
 		seqs := verifParseAll(out)
 		zzverif.Assert(len(seqs) == 1, "one-report")
